@@ -462,3 +462,27 @@ def bigNormalizeNegateCol? (big128 : Bool) (resBase2k resSize : Nat) (resOffset 
     Option Col :=
   ((if big128 then bigNormalizeCol128? else bigNormalizeCol64?) resBase2k resSize resOffset a aBase2k n).map
     (fun t => t.map (fun p => p.map (fun x => w64 (-x))))
+
+/-! ### proposed repair of the gap-region defect (docs/C08.md) — not the pinned code
+
+When the shifted input lies entirely below the output (`gap = -limbs_offset - res_size > 0`) the
+repaired Rust runs `gap` extra `znx_normalize_middle_step_carry_only` steps on a zero limb after the
+discard loop, so that the carry reaches the weight of the last output limb.  On one coefficient this
+is exactly the pinned routine applied to `a` extended by `gap` zero limbs on top with the offset
+increased by `gap·b`. -/
+
+/-- repaired same-radix `vec_znx_normalize` on one coefficient -/
+def normalizeInterCoefRepaired (bits b rs : Nat) (off : Int) (a : List Int) : List Int :=
+  let gap := Int.toNat (-(splitOffset b off).2 - rs)
+  normalizeInterCoef bits b rs (off + gap * b) (List.replicate gap 0 ++ a)
+
+/-- repaired `vec_znx_rsh` (overwrite form) on one coefficient -/
+def rshCoefRepaired (b k : Nat) (a res : List Int) : List Int :=
+  let gap := (rshSteps b k).1 - res.length
+  rshCoef .overwrite b (k - gap * b) (List.replicate gap 0 ++ a) res
+
+def normalizeRepairedCol (b rs : Nat) (off : Int) (a : Col) (n : Nat) : Col :=
+  mapCoefs n rs (fun i => normalizeInterCoefRepaired 64 b rs off (coefAt a i))
+
+def rshRepairedCol (b k : Nat) (res a : Col) (n : Nat) : Col :=
+  mapCoefs n res.length (fun i => rshCoefRepaired b k (coefAt a i) (coefAt res i))
